@@ -579,6 +579,17 @@ def rule_loaded_is_marked(ctx: Ctx) -> None:
                 f"{f.name} marks what it loaded from the store ({norm(marked[0].value.func) if marked else ''}) before returning it next to computed results",
                 f"{f.name} returns what it loaded from the store (`{norm(bare[0]) if bare else ''}`) through the same channel as a computed result, and {pickers[0].name if pickers else '?'} applies output_picker to whatever arrives: "
                 "on resume a stored multi-output result is picked from a second time (TypeError with a custom output_picker)", "loaded / computed returns not classified", key=f"loaded-marked {f.name}")
+        # how the loaded value is split over the output names is decided by the DECLARED names, not by looking at the value: a
+        # single output whose value happens to be a list / tuple must stay one value
+        for r in marked:
+            tests = [x.test for x in ast.walk(r.value) if isinstance(x, ast.IfExp)]
+            peeks = [c for t in tests for c in ast.walk(t) if isinstance(c, ast.Call) and dotted(c.func) in ("isinstance", "type", "len", "hasattr") and c.args
+                     and any(isinstance(x, ast.Name) and x.id in loaded_names for x in ast.walk(c.args[0]))]
+            if tests:
+                ctx.tri("7-loaded-marked", f, peeks[0] if peeks else r, not peeks and any("output_name" in norm(t) for t in tests), bool(peeks),
+                        f"{f.name}: one value or one per name is decided by the declared output name(s)",
+                        f"`{norm(peeks[0])[:50] if peeks else ''}` decides from the TYPE of the stored value whether it holds one value per output name: a single output whose value is a list (or tuple) is split on resume - "
+                        "the resumed run returns its first element(s) instead of the stored value", "test that splits the loaded value not recognised", key=f"loaded-arity {f.name}")
     ctx.floor("7-loaded-marked", n, 1)
 
 
